@@ -238,6 +238,46 @@ def dec_b256(ctx):
     return obs
 
 
+def header_ops(f, rule, nbytes, S=7):
+    """the codeword operations write_length performs for a Base256 run of `nbytes` data bytes (the header block folded with
+    data_written = nbytes + 1): ('ok', ops, new data_written) | ('trap',) | ('undecidable', why)"""
+    wl = "encodation::base256::write_length"
+    need(wl in f.thir, rule, wl)
+    b = f.thir[wl]
+    hdr_if = None
+    for x in T.exprs(b["body"], "If"):
+        if x["cond"].get("k") != "Let" and any(T.canon(T.callee_of(c)).endswith("::replace") for c in T.calls(x["then"])) and any(T.canon(T.callee_of(c)).endswith("has_more_characters") for c in T.calls(x["cond"])):
+            hdr_if = x
+            break
+    need(hdr_if is not None, rule, wl, "(length header block)")
+    start_p = b["params"][1]["pat"]["name"]
+    dw = None
+    for st in b["body"]["stmts"]:
+        if st["k"] == "Let" and st["pat"].get("name", "").startswith("data_written#"):
+            dw = st["pat"]["name"]
+    need(dw, rule, wl, "(data_written)")
+    ops = []
+
+    def on_call(folder, c):
+        cc = T.canon(T.callee_of(c))
+        last = cc.split("::")[-1]
+        if last == "replace" and len(c["args"]) == 3:
+            ops.append(("replace", folder.fold(c["args"][1]), folder.fold(c["args"][2])))
+            return None
+        if last == "insert" and len(c["args"]) == 3:
+            ops.append(("insert", folder.fold(c["args"][1]), folder.fold(c["args"][2])))
+            return None
+        return NotImplemented
+    fo = T.Folder(f, env={start_p: S, dw: nbytes + 1, b["params"][0]["pat"]["name"]: "CTX"}, on_call=on_call, effects=True, local_calls=1)
+    try:
+        fo.fold(hdr_if["then"])
+        return ("ok", tuple(ops), fo.env[dw]), hdr_if
+    except T.Trap:
+        return ("trap",), hdr_if
+    except T.Undecidable as ex:
+        return ("undecidable", str(ex)), hdr_if
+
+
 def b256_sync(ctx):
     r = "B256-SYNC"
     f = ctx.facts()
@@ -270,24 +310,20 @@ def b256_sync(ctx):
                             fnc = {"Lt": lambda v: v < k, "Le": lambda v: v <= k, "Gt": lambda v: v > k, "Ge": lambda v: v >= k, "Eq": lambda v: v == k, "Ne": lambda v: v != k}[op]
                             out.append((frozenset(v for v in WIN if fnc(v)), st, T.sx_show(x)))
         return out, sts
-    # encoder thresholds
-    wl = "encodation::base256::write_length"
-    need(wl in f.thir, r, wl)
-    wsts = T.stmts(f.thir[wl]["body"], {"__noinline__": True})
-    enc_one = enc_ok = None
-    for st in T.stmt_walk(wsts):
-        if st[0] == "if" and st[1][0] == "bin" and is_var(st[1][2], "data_count") and st[1][3][0] == "lit":
-            k = st[1][3][1]
-            fnc = {"Le": lambda v: v <= k, "Lt": lambda v: v < k}.get(st[1][1])
-            if fnc is None:
-                continue
-            s = frozenset(v for v in WIN if fnc(v))
-            has_insert = any(x[0] == "call" and x[1].endswith("::insert") for y in T.stmt_walk(st[2]) for e in T.stmt_exprs(y) for x in T.sx_walk(e))
-            if not has_insert and enc_one is None:
-                enc_one = s
-            elif has_insert:
-                enc_ok = s
-    need(enc_one is not None and enc_ok is not None, r, wl, "(one-byte / two-byte thresholds)")
+    # encoder thresholds: which run lengths get the one-codeword and which the two-codeword length field (header block folded
+    # for every run length of the window)
+    one, two = set(), set()
+    for n in WIN:
+        if n == 0:
+            continue
+        got, _hdr = header_ops(f, r, n)
+        if got[0] == "undecidable":
+            need(False, r, "encodation::base256::write_length", "(header block does not fold: %s)" % got[1])
+        if got[0] == "ok":
+            (two if any(o[0] == "insert" for o in got[1]) else one).add(n)
+    need(one and two, r, "encodation::base256::write_length", "(one-byte / two-byte thresholds)")
+    enc_one = frozenset(one) | {0}
+    enc_ok = frozenset(one | two) | {0}
     long_enc = frozenset(v for v in WIN if v not in enc_one and v in enc_ok)      # two-byte header
     max_enc = max(enc_ok)
     for suffix in ("Base256Plan<T> as encodation::planner::Plan>::mode_switch_cost", "Base256Plan<T> as encodation::planner::Plan>::cost", "Base256Plan<T> as encodation::planner::Plan>::write_unlatch"):
